@@ -111,6 +111,43 @@ def oracle_and_corr(ctx):
         impl.append(str(len(left)))
         if len(samples) < 4:
             samples.append({'oracle': 'C18', **desc, 'leftovers': len(left)})
+    # --- one source fails half-way through its decompression while other workers own listed temp files, then SIGINT:
+    #     the failing worker must clean up ITS file only; the handler must still find (and remove) every other one
+    import lzma
+    evx_plain = lzma.open(os.path.join(core.REPO, EVX)).read()
+    badgz = os.path.join(ctx.work, 'bad.evtx.gz')
+    blob = gzip.compress(evx_plain + bytes(24 * 1024 * 1024), 1)
+    open(badgz, 'wb').write(blob[:-65536])
+    for k in range(ctx.q(3, 12)):
+        env = dict(base_env)
+        env['S4_VERIF_DELAYS'] = '%d:300000' % (ctx.seed * 7 + k)
+        goods = [os.path.join(core.REPO, EVX)] * 1 + sources(ctx, rng, rng.range(1, 2))
+        order = rng.shuffle(goods + [badgz])
+        e = dict(os.environ)
+        e.update(env)
+        p = subprocess.Popen([core.S4] + e2e.BASE_ARGS + order, env=e, stdout=subprocess.DEVNULL, stderr=subprocess.PIPE)
+        seen_max, t0, fired = 0, time.time(), None
+        while time.time() - t0 < 10 and p.poll() is None:
+            n = len(os.listdir(tmpdir))
+            seen_max = max(seen_max, n)
+            if seen_max >= 2 and 1 <= n < seen_max:
+                fired = time.time() - t0
+                p.send_signal(signal.SIGINT)
+                break
+            time.sleep(0.01)
+        try:
+            _, err = p.communicate(timeout=60)
+        except subprocess.TimeoutExpired:
+            p.kill()
+            _, err = p.communicate()
+        ev += 1
+        left = leftovers(tmpdir)
+        desc = {'scenario': 'sigint-after-a-failed-decompression', 'sources': [os.path.basename(s_) for s_ in order], 'signal_at_s': fired,
+                'temp_files_seen': seen_max}
+        if fired is not None and left:
+            failures.append({'signature': 'tmp:leftover-after-sigint', 'detail': f'{len(left)} file(s) left: {left[:3]}', 'case': desc})
+        if len(samples) < 6:
+            samples.append({'oracle': 'C18', **desc, 'leftovers': len(left)})
     # --- SIGINT at assorted moments of an ordinary run
     for k in range(ctx.q(8, 60)):
         n = rng.range(1, 4)
@@ -141,7 +178,7 @@ def oracle_and_corr(ctx):
         failures.append({'signature': 'tmp:leftover-after-sigint', 'detail': f'{left[:3]}', 'case': {'scenario': 'silent worker'}})
     orc = {'evaluations': ev, 'distinct_nontrivial': ev, 'failures': failures, 'samples': samples,
            'rule': 'private TMPDIR listed after exit: normal runs over 1-4 compressed journal/evtx sources (half with the worker stalled 250 ms after its final summary), '
-                   'SIGINT inside the widened create/list window, SIGINT at 0-200 ms of ordinary runs with and without delay plans, and one silent-worker run for '
+                   'SIGINT inside the widened create/list window, SIGINT right after one source failed half-way through its decompression while others own temp files, SIGINT at 0-200 ms of ordinary runs with and without delay plans, and one silent-worker run for '
                    'signal-to-exit latency; every run is a distinct (sources, plan, signal time) combination'}
     corr = model_compare(ctx, 'tmp-scenarios', reqs, impl)
     return orc, [corr]
